@@ -194,7 +194,7 @@ func keyOf(f c07.Finding, strict bool) string {
 	switch f.Kind {
 	case "dangling-map-backend":
 		// which map family, and what kind of value
-		m := regexp.MustCompile(`(_front_[a-z_]+?|_tcp_[a-z_]+?|_back_[^ ]*?)(__[a-z_0-9]+)?\.map`).FindStringSubmatch(f.What)
+		m := regexp.MustCompile(`(_front_[a-z_]+?|_tcp_sni_\d+|_back_[^ ]*?)(__[a-z_0-9]+)?\.map`).FindStringSubmatch(f.What)
 		if m != nil {
 			detail = reNum.ReplaceAllString(m[1], "N")
 		}
@@ -209,6 +209,9 @@ func keyOf(f c07.Finding, strict bool) string {
 		case v == nil:
 		case v[1] == "":
 			detail += ":empty-value"
+		case v[1] == "__":
+			// BackendID.String() of an empty backend id
+			detail += ":empty-backend-id"
 		case reBackend.MatchString(v[1]):
 			detail += ":service-backend"
 		default:
